@@ -172,6 +172,7 @@ def run_history(ev, fa, fb, fc, n):
         o.closed = False
         o.app_cancelled = False
         o.cancel_peer_done = False
+        o.partial_kept_at_end = False
         o.cancel_at = None        # index into subscriber log / wire at the moment of the local cancel
         o.inbound_cancel = 0
         o.inbound_cancel_emitted_before = None
@@ -316,6 +317,11 @@ def run_history(ev, fa, fb, fc, n):
                 o.closed = True
                 o.applied.append('loss:' + o.lost_how)
             loop.run_ready()
+            # a partial frame received BEFORE the interaction ended must be dropped when it ends (fragments that arrive
+            # afterwards from a peer that is still mid-frame are transient and judged separately)
+            if (SID not in ep._stream_control._streams and SID in ep._frame_fragment_cache._frames_by_stream_id
+                    and not (e == PAYLOAD and peer_midfrag)):
+                o.partial_kept_at_end = True
         loop.run_ready()          # quiescence (skipped events and racing cancels do not run the loop themselves)
         o.peer_done, o.peer_dead, o.peer_cancelled, o.peer_midfrag = peer_done, peer_dead, peer_cancelled, peer_midfrag
         # ---- checkpoint 1 (connection possibly still open): state snapshots for the monitors
